@@ -28,6 +28,8 @@ let run_t line =
              else ilist v end
            else []) pt in
        let pt = List.filter (fun t -> not (String.length t >= 5 && String.sub t 0 5 = "lose=")) pt in
+       let resave = List.exists (fun t -> t = "resave" || t = "resave2") pt in
+       let pt = List.filter (fun t -> t <> "resave" && t <> "resave2") pt in
        let disk = Array.init np (fun i -> not (List.mem i missing)) in       (* piece valid on disk *)
        let bits = ref (Some (Array.to_list disk)) in
        let active = ref false and opened = ref true and checked = ref true in
@@ -67,7 +69,9 @@ let run_t line =
                  let kinds = List.map (fun _ -> saved_mtime (Some (n_of_int 0, z_of_int 500)) true (all_set ()) !active) lens in
                  saved := Some (kinds, (match !bits with Some b -> b | None -> []))
                end;
-               saved_unc := List.sort_uniq compare (List.map int_of_nat (uncertain_saved !completed (z_of_int !now)));
+               (* resume_save_uncertain_pieces: while not hash checked the repaired code leaves the stored list alone *)
+               if !checked || not unc_kept_flag then
+                 saved_unc := List.sort_uniq compare (List.map int_of_nat (uncertain_saved !completed (z_of_int !now)));
                saved_cl := List.length !completed
              end
            end) (split_ws ops);
@@ -96,7 +100,7 @@ let run_t line =
         | None ->
           let r = { r_map = true; r_files = None; r_bits = BMissing; r_unc = None; r_unc_ts = None } in
           let (s, _) = load (nat_of_int np) (z_of_int 10) (List.map fst finfo) s0 r in
-          Printf.sprintf "saved=- sbf=- unc=%s cl=%s load_ranges=%s bits=%s" uncs cls (bools_str s.l_ranges) (bools_str (check s valid))
+          Printf.sprintf "saved=- sbf=- unc=%s cl=%s%s load_ranges=%s bits=%s" uncs cls (if resave then " resaved_unc=erased" else "") (bools_str s.l_ranges) (bools_str (check s valid))
         | Some (kinds, b) ->
           let unc = !saved_unc in
           let allset = List.for_all (fun x -> x) b and allunset = List.for_all (fun x -> not x) b in
@@ -113,9 +117,12 @@ let run_t line =
           let uncb = List.concat_map (fun i -> List.map n_of_int [(i lsr 24) land 255; (i lsr 16) land 255; (i lsr 8) land 255; i land 255]) unc in
           let r = { r_map = true; r_files = Some (List.map (fun z -> FMap (MVal z)) kinds); r_bits = rb;
                     r_unc = (if unc = [] then None else Some uncb); r_unc_ts = (if unc = [] then None else Some (z_of_int 0)) } in
-          let (s, _) = load (nat_of_int np) (z_of_int 10) (List.map fst finfo) s0 r in
-          Printf.sprintf "saved=%s sbf=%s unc=%s cl=%s load_ranges=%s bits=%s"
-            (String.concat "" (List.map kind_char kinds)) sbf uncs cls
+          (* the intermediate lifetime of a 'resave' case: nothing completes there, it saves 10 s after its start *)
+          let r2 = if resave then resave_unchecked r [] (z_of_int 1) else r in
+          let rs = if resave then (match r2.r_unc with Some _ -> " resaved_unc=kept" | None -> " resaved_unc=erased") else "" in
+          let (s, _) = load (nat_of_int np) (z_of_int 10) (List.map fst finfo) s0 r2 in
+          Printf.sprintf "saved=%s sbf=%s unc=%s cl=%s%s load_ranges=%s bits=%s"
+            (String.concat "" (List.map kind_char kinds)) sbf uncs cls rs
             (bools_str s.l_ranges) (bools_str (check s valid)))
      | _ -> "BADCASE")
   | _ -> "BADCASE"
